@@ -163,7 +163,8 @@ PROPS = {
     ),
     "C13": dict(
         driver="C13",
-        also_drivers=["C10"],   # builder settings of the composite futures (flags, offsets, zero-copy) are exercised by C10's driver and model
+        also_drivers=["C10", "C02"],   # composite futures (builder settings on every continuation) and the order/identity of
+                                       # multishot results are exercised by the C10 and C02 drivers against their models
         model="Model/Encode.v + Model/ResultDecode.v",
         run_fn="run_c13case_fixed",
         theorems=["C13_encode_matches_abi_except_h20_h24", "C13_h20_splice_to_direct_swaps_tables",
